@@ -15,6 +15,7 @@ type nspec struct {
 	Slots map[string]*slot // slot id -> name
 	// collision experiments (C08): extra members
 	ExtraDefs  []string    // additional definitions (object with one property)
+	GoNames    map[string]string // definition name -> x-go-name
 	ExtraProps []string    // additional properties of def0
 	ExtraOps   [][3]string // additional operations: method, path, operationId ("" = none)
 	ExtraQuery []string    // additional query parameters of op0
@@ -104,6 +105,9 @@ func (sp *nspec) JSON() M {
 	}
 	for i, d := range sp.ExtraDefs {
 		defs[d] = M{"type": "object", "properties": M{"extra" + string(rune('a'+i)): M{"type": "string"}}}
+		if gn, ok := sp.GoNames[d]; ok {
+			defs[d].(M)["x-go-name"] = gn
+		}
 	}
 	for k, v := range kindDefs {
 		defs[k] = v
